@@ -242,7 +242,7 @@ class CHECK(core.Check):
     PROPERTY = "C29"
     LEAN_MODULES = ["IofloModel.Props.C29"]
     ENGINE = "httpmsg"
-    N_QUICK = 1500
+    N_QUICK = 1000
     N_THOROUGH = 60000
     N_SEARCH = 3000
     RULE = ("well-formed requests (all 9 methods; origin, asterisk and absolute targets; HTTP/1.0 and 1.1) and responses "
@@ -263,15 +263,17 @@ class CHECK(core.Check):
                "netloc has no brackets and no non-ASCII characters)",
                "the Requestant's incomer is a stub object with a .timeout attribute",
                "the tree checked is /repo with fixes D19-parseline-earliest-eol, D16-parseleader-colon, "
-               "D29a-chunk-ext-unhashable, D29b-respondent-100-continue applied"]
+               "D29a-chunk-ext-unhashable, D29b-respondent-100-continue applied; whether D18 (parseMessage catches "
+               "ValueError) is applied is detected and the matching model variant is used for the damaged-input tie"]
     PARTIAL = ["the theorems take as hypotheses what the parser's own line functions read in each line (ReqHead, RspHead, "
                "Chunk.wf: parseRequestLine/parseStatusLine, headerLine folded over the header lines, chunkLine); "
-               "C29_header_ows and C29_request_line discharge them for canonically written header and request lines, "
-               "status lines and chunk size lines are discharged by evaluation in the examples only",
+               "C29_header_ows, C29_request_line and C29_chunk_size_line discharge them for canonically written header "
+               "lines, request lines and hexadecimal chunk sizes; status lines and chunk extensions are discharged by "
+               "evaluation in the examples only",
                "lines are CRLF terminated, contain no bare CR/LF and are shorter than MAX_LINE_SIZE (at exactly "
                "MAX_LINE_SIZE bytes + CR the code's LineTooLong test depends on whether the LF has arrived)",
-               "a response preceded by 100-Continue interim responses and pipelined messages after makeParser() are in "
-               "the model and in the correspondence runs but not in the theorems",
+               "pipelined messages after makeParser() are in the model and in the correspondence runs but not in the "
+               "theorems (responses preceded by 100-Continue interim responses are)",
                "responses with Content-Type text/event-stream (body handed to EventSource, see C33) and request targets "
                "whose netloc has brackets or non-ASCII characters are explicitly outside the model ('unmodelled')"]
     TECHNIQUE = ("Lean 4 theorems (generic script theorem for a resumable parser: a stream that is a sequence of segments "
@@ -285,7 +287,8 @@ class CHECK(core.Check):
                   "exactly its start line fields, header dictionary, body, extension parameters and trailers, and the "
                   "bytes after the message stay in the buffer; any two splits of such a stream give the same complete "
                   "parser state (C29_split_independent); header lines are read the same with or without white space "
-                  "after the colon (C29_header_ows); request lines are read as their tokens (C29_request_line).")
+                  "after the colon (C29_header_ows); request lines are read as their tokens (C29_request_line), hexadecimal "
+                  "chunk sizes as their value (C29_chunk_size_line).")
     LEVEL_NOTE = ("Trusted: Lean kernel; axioms propext, Classical.choice, Quot.sound; the hand transcription of "
                   "httping/serving/clienting parsers validated by the correspondence runs; CPython str/bytes/int "
                   "primitives and urlsplit. Line-level reading of status lines and chunk size lines enters the theorems "
@@ -350,7 +353,7 @@ class CHECK(core.Check):
     ]
 
     def exhaustive(self, tier):
-        fixed = self.FIXED if tier == "thorough" else self.FIXED[:4]
+        fixed = self.FIXED if tier == "thorough" else self.FIXED[:3]
         for kind, method, stream, close, expect in fixed:
             rest = b"" if close else b"NX"
             n = len(stream + rest)
@@ -430,9 +433,20 @@ class CHECK(core.Check):
     def impl(self, case):
         return run_impl(case["kind"], case["method"], self._ops(case), case["max"])
 
+    _d18 = None
+
+    def _has_d18(self):
+        """does Parsent.parseMessage of the tree under test catch ValueError (fixes/D18-…)?  The model has both
+        behaviours (driver kinds `req` / `req!`); C29 itself does not depend on it (well-formed messages raise
+        nothing), only the model/code tie on damaged input does."""
+        if CHECK._d18 is None:
+            out = run_impl("req", "GET", [b"POST / HTTP/1.1\r\nTransfer-Encoding: chunked\r\n\r\nzz\r\n"])
+            CHECK._d18 = "escaped=~" in out[0]
+        return CHECK._d18
+
     def requests(self, case):
         ops = [o if isinstance(o, str) else "f" + hx(o) for o in self._ops(case)]
-        return ["%s %s %d %s" % (case["kind"], case["method"], case["max"], " ".join(ops))]
+        return ["%s%s %s %d %s" % (case["kind"], "" if self._has_d18() else "!", case["method"], case["max"], " ".join(ops))]
 
     def model_post(self, case, replies):
         return replies[0].split(" | ")
